@@ -8,6 +8,8 @@ import SqlObjVerif.Lemmas.QueryXKw
 import SqlObjVerif.Lemmas.QueryXOrder
 import SqlObjVerif.Lemmas.QueryXChain
 import SqlObjVerif.Lemmas.QueryXLookup
+import SqlObjVerif.Lemmas.QueryXPlan
+import SqlObjVerif.Lemmas.QueryXIdx
 /-!
 # C11 — selects, orderings, counts and aggregates equal the same query over a plain copy of the rows
 
@@ -831,6 +833,50 @@ theorem C11_translated_sum_plan_text (cl ct ts : PyQ.Val) (d : List (Str × PyQ.
     ∧ avgX (qIface sch P fnRec (cmOne sch P fnRec cm cv) cv) (srObj clsV cl (.dict d) ct ts) (termArgV sch t)
         = aggAcc sch P cm .avg s t (srObj clsV cl (.dict d) ct ts) :=
   sum_plan_text sr sch P fnRec cm cv cl ct ts d s hrep hc hsr t
+
+/-! ### third batch: `queryForSelect`, the `orderBy` chain -/
+
+/-- **`queryForSelect` as translated**: the `Select` it builds gets the columns `T.q.id, T.q.<name>…`, `where=` the
+    clause, `join / distinct / lazyColumns / start / end / forUpdate` from `ops` (with their defaults), `orderBy=` the
+    munged `ops['dbOrderBy']`, `reversed=`, `staticTables=self.tables`.  (`Select.__init__` / `__sqlrepr__` themselves:
+    proved about the translated source in the PySel embedding of C03, `Props/C03.lean`.) -/
+theorem C11_translated_queryForSelect_eq_model (cl ct ts : PyQ.Val) (d : List (Str × PyQ.Val)) :
+    queryForSelectX (qIface sch P fnRec cm cv) (srObj clsV cl (.dict d) ct ts) =
+      ofR (fnRec "Select" [columnsV sch] (selectKw cl ts d)) :=
+  queryForSelect_translated sch P fnRec cm cv cl ct ts d
+
+/-- … and these arguments ARE the hand model's plan `queryForSelect s` of the represented select: its WHERE clause, its
+    ORDER BY expressions and `reversed` flag (which the translated ORDER BY statement renders as `orderKeys s`,
+    `C11_translated_orderBy_text_eq_model`), its DISTINCT flag, all columns as items — so the plan the model
+    evaluates is what the translated code hands to `sqlrepr`. -/
+theorem C11_translated_queryForSelect_plan (cl ts : PyQ.Val) (d : List (Str × PyQ.Val)) (s : Sel) (hrep : Rep sr sch cl d s) :
+    aget kWhere (selectKw cl ts d) = some (clauseV sr sch (queryForSelect s).where_)
+    ∧ aget kOrderBy (selectKw cl ts d) = some (DbOrder.toVal sch s.order)
+    ∧ truthyOpt (selectKw cl ts d) kReversed = s.reversed
+    ∧ truthyOpt (selectKw cl ts d) kDistinct = (queryForSelect s).distinct
+    ∧ (queryForSelect s).order = orderKeys s ∧ (queryForSelect s).items = .columns :=
+  queryForSelect_rep sr sch cl ts d s hrep
+
+/-- **`orderBy(o')` → `clone` → `__init__` about the translated chain**: the object built represents `Sel.orderBy`
+    (the last `orderBy` wins, flags and clause kept); `Good` is kept. -/
+theorem C11_translated_orderBy_rep (dbn : PyQ.Val)
+    (hdb : ∀ cm, attrOf (qIface sch P fnRec cm cv) P.conn "dbName" = .ok dbn)
+    (s : Sel) (o o' : OrderBy) (d : List (Str × PyQ.Val)) (ct ts : PyQ.Val) (hct : truthy ct = false)
+    (g : Good sr sch d s o) :
+    ∃ d' ts', orderByX (qIface sch P fnRec (cm3 sch P fnRec cm cv) cv) (srObj clsV (clauseV sr sch s.clause) (.dict d) ct ts)
+        (OrderBy.toVal sch o') = .ret (srObj clsV (clauseV sr sch s.clause) (.dict d') ct ts') ∧
+      Good sr sch d' (s.orderBy sch o') o' :=
+  orderBy_rep sr sch P fnRec cv cm dbn hdb s o o' d ct ts hct g
+
+/-- `_SO_fetchAlternateID` as translated, unique-index branch (`idxName` given): when `_findAlternateID` finds no row
+    the outcome is `SQLObjectNotFound` — never `None`, never an error of the message loop — for every number of index
+    columns (names and values of the same length). -/
+theorem C11_translated_fetchAlternateID_idx_notfound (ns : List Str) (vs : List PyQ.Val) (hlen : vs.length = ns.length)
+    (idx : Str) (dbName connection result obj : PyQ.Val) (hres : truthy result = false)
+    (hfind : cm clsV "_findAlternateID" [.tuple (ns.map .str), dbName, .tuple vs, connection] [] = .ok (.tuple [result, obj])) :
+    fetchAlternateIDX (qIface sch P fnRec cm cv) clsV (.tuple (ns.map .str)) dbName (.tuple vs) connection (.str idx) =
+      .exc .notFound :=
+  fetchAlternateID_idx_miss sch P fnRec cm cv ns vs hlen idx dbName connection result obj hres hfind
 
 end X
 
